@@ -20,8 +20,7 @@
      (C11_cleanup_total), every lookup through a list of a remaining instance resolves to the
      frame-image of what it resolved to before (C11_cleanup_lookups), index entries likewise
      (C11_cleanup_commutes_partial), and a later second clean-up gives extensionally the state of
-     one clean-up at the later clock (C11_cleanup_later_clock_ext: per-flow lists and list orders
-     not covered).  What stays unproved: that the dispatch does nothing observable with the
+     one clean-up at the later clock (C11_cleanup_later_clock_ext: list orders not compared).  What stays unproved: that the dispatch does nothing observable with the
      discarded (done, non-activated) instances and does not read parent_uid of a discarded
      parent, i.e. "same outgoing events" for the whole event loop - validated by exploration
      (X2).
@@ -56,10 +55,11 @@ Theorem C11_source_shape :
   redo_callback_target = ["partial(_flow_head_changed, state, flow_state)"] /\
   redo_loops = ["state.flow_states.items()"; "flow_state.heads.items()"] /\
   ctor_rejected_fields = [] /\ action_to_dict_keys = action_fields /\ action_is_dataclass = false /\
+  action_to_dict_live = true /\
   late_tags_free classes_now.
 Proof.
   exact (conj eq_refl (conj eq_refl (conj eq_refl (conj eq_refl (conj eq_refl (conj eq_refl (conj eq_refl
-        (conj eq_refl (conj eq_refl (conj eq_refl late_tags_free_now)))))))))).
+        (conj eq_refl (conj eq_refl (conj eq_refl (conj eq_refl late_tags_free_now))))))))))).
 Qed.
 Print Assumptions C11_source_shape.
 
@@ -189,6 +189,22 @@ Theorem C11_shared_list_refuted :
 Proof. exact shared_list_refuted. Qed.
 Print Assumptions C11_shared_list_refuted.
 
+(* The refs table is keyed by id(obj): the model `enc` (and C11_roundtrip) rely on "every object
+   registered in refs stays alive until encoding ends" - true of the current source
+   (C11_source_shape: action_to_dict_live).  An encoder whose Action branch registers TEMPORARY
+   copies (`enc_tmp`) is restored correctly when the allocator never reuses an identity during
+   one encoding, and is REFUTED under CPython's reuse: the second action is written as refs to
+   the first action's dicts. *)
+Theorem C11_tmp_reuse_refuted :
+  exists j, encode_tmp alloc_reuse flags_fixed 10 h_two_actions (VO 0) = Some j /\
+            canon_of 100 (decode flags_fixed classes_now 10 j) <> canon_of 100 (Some (h_two_actions, VO 0)).
+Proof. exact tmp_reuse_refuted. Qed.
+Print Assumptions C11_tmp_reuse_refuted.
+
+Theorem C11_tmp_distinct_inhabited : alloc_fresh alloc_distinct h_two_actions.
+Proof. exact alloc_distinct_fresh. Qed.
+Print Assumptions C11_tmp_distinct_inhabited.
+
 (* ---------------------------------------------------------------------------------- *)
 (* clean-up *)
 
@@ -287,7 +303,8 @@ Print Assumptions C11_cleanup_lookups.
 (* monotonicity in the clock: cleaning up at t1 and again at t2 >= t1 leaves the same instances,
    with the same fields, the same children and scope members, and the same actions as cleaning
    up once at t2 - the second clean-up removes exactly what became old enough in between.
-   EXTENSIONAL (lookups / membership): the order of lists and the per-flow lists are not compared. *)
+   EXTENSIONAL (lookups / membership of every list, incl. the per-flow lists): only the ORDER of
+   list elements is not compared. *)
 Theorem C11_cleanup_later_clock_ext :
   forall t1 t2 s s1 s12 s2,
     t1 <= t2 -> refs_ok s ->
@@ -301,6 +318,7 @@ Theorem C11_cleanup_later_clock_ext :
        (forall k l12 l2, slook (i_scopes i12) k = Some l12 -> slook (i_scopes i2) k = Some l2 ->
                          forall x, In x l12 <-> In x l2)) /\
     (forall a, slook (actions s12) a = slook (actions s2) a) /\
+    (forall f l12 l2, slook (by_flow s12) f = Some l12 -> slook (by_flow s2) f = Some l2 -> forall x, In x l12 <-> In x l2) /\
     s_rest s12 = s_rest s2.
 Proof. exact later_clock_now. Qed.
 Print Assumptions C11_cleanup_later_clock_ext.
